@@ -141,7 +141,11 @@ def run(ctx):
         ctx.traces += 1
         ctx.tag("probe_" + probe["fn"])
         for spec in hist + [probe]:
-            res, before, after = c17_calls.do_call(spec)
+            try:
+                res, before, after = c17_calls.do_call(spec)
+            except AssertionError as e:
+                ctx.violation("argument-modified", "call %r: %s" % (spec, e), case)
+                res, before, after = None, [], []
             if before != after:
                 i = next(i for i, (a, b) in enumerate(zip(before, after)) if a != b)
                 ctx.violation("argument-modified", "call %r modified its argument #%d" % (spec, i), case)
